@@ -144,7 +144,7 @@ CHECKS.update({
 })
 
 E2E = (" Above the leaf: (a) composite level - the real BasicStructure/Request/Response encode/decode loops over abstract "
-       "parameters that satisfy the Codec interface contract (paired encode/decode harness); (b) end-to-end - 52 real "
+       "parameters that satisfy the Codec interface contract (paired encode/decode harness); (b) end-to-end - 57 real "
        "parameter descriptions built natively (coded constants, value parameters with IDENTICAL/LINEAR methods, reserved, "
        "matching-request, NRC-const, physical constants, system parameters, nested structures, end-of-PDU / static / "
        "dynamic-length / dynamic-endmarker fields, MIN-MAX-LENGTH, LEADING-LENGTH-INFO, PARAM-LENGTH-INFO with length "
@@ -153,9 +153,12 @@ E2E = (" Above the leaf: (a) composite level - the real BasicStructure/Request/R
        "run through the real Request/Response.encode and decode with values and message bytes symbolic; these are "
        "labelled B (57 concrete descriptions, field/byte-field lengths bounded; values symbolic) and are reported as "
        "bounded checks, never counted as proved; for 19 descriptions the PDU is compared with an independently "
-       "written wire image (17 descriptions), and decoded values must be backed by the bytes of the message.")
+       "written wire image (17 descriptions), and decoded values must be backed by the bytes of the message. "
+       "(c) unbounded (P): byte fields of symbolic length through the real extract_atomic_value / emplace_atomic_value, "
+       "and the real MinMaxLengthType.decode_from_pdu / encode_into_pdu on the real states with PDU, value, MIN/MAX-LENGTH "
+       "and cursor of any size (inductive invariants + variants on both search loops, bytes.find by specification).")
 for k in ("C01","C02","C03","C04","C05","C08"):
-    CHECKS[k] = (CHECKS[k][0] + E2E, CHECKS[k][1] + "; Codec interface contract for composites; end-to-end harnesses over real descriptions")
+    CHECKS[k] = (CHECKS[k][0] + E2E, CHECKS[k][1] + "; Codec interface contract for composites; end-to-end harnesses over real descriptions; inductive loop invariants for MIN-MAX-LENGTH objects of any length")
 CHECKS["C17"] = (CHECKS["C17"][0] + " Restoration: whatever passes in strict mode gives the same result in lenient mode "
                  "(encode and decode of the end-to-end descriptions run twice, results compared), and switching the flag "
                  "back restores the error.", CHECKS["C17"][1] + "; 2-run comparison harness over the end-to-end descriptions")
